@@ -250,22 +250,103 @@ def suppression_family(ctx: Ctx, spec: dict[str, Any]) -> None:
     ctx.sample({"kind": "suppression-family", "source": em.source, "on": outs[True], "off": outs[False]})
 
 
+# --------------------------------------------------------------- delimiter look-alikes
+
+
+def lookalike_family(ctx: Ctx, spec: dict[str, Any]) -> None:
+    """Literal text containing delimiter look-alikes that are not markup (`{#` never
+    closed, `{`, `{-`, or `#}`, `}}`, `%}` never opened): the text is one piece, so no
+    marker or default trim mode may touch whitespace inside it. Exact comparison with the
+    reference, which treats each text as opaque."""
+    from ..gen import model as M
+
+    rng = random.Random(f"{spec['seed']}:lookalike:{spec['i']}")
+    ws = [" ", "  ", "\n", "\t", "\r\n", " \n ", "\u00a0", "\u2003", "\x0b"]
+    opening = ["{#", "{##", "{", "{ {", "{-", "{~", "{ #", "{#-"]
+    closing = ["#}", "}}", "%}", "}", "-%}", "-}}", "##}"]
+    em = got = None
+    for j in range(spec["per"]):
+        looks = opening if j % 2 == 0 else closing
+
+        def text() -> Any:
+            while True:
+                bits = []
+                for _ in range(rng.randint(1, 5)):
+                    bits.append(rng.choice([rng.choice(ws), rng.choice(ws), rng.choice(looks), rng.choice("abxyz.")]))
+                if not any(b in looks for b in bits):
+                    bits.insert(rng.randrange(len(bits) + 1), rng.choice(looks))
+                t = "".join(bits)
+                # look-alikes only: nothing that really opens markup, alone or together
+                # with the markup that follows the text
+                if "{{" not in t and "{%" not in t and not t.endswith("{"):
+                    return M.Text(t)
+
+        def markup(depth: int = 0) -> Any:
+            k = rng.randrange(5 if depth == 0 else 3)
+            if k == 0:
+                return M.Out(M.Filt(M.Var("v")))
+            if k == 1:
+                return M.Assign("z", M.Filt(M.Lit(1)))
+            if k == 2:
+                return M.Comment("inline", " note ")
+            if k == 3:
+                return M.If([(M.Truthy(M.Lit(True)), [text(), markup(1), text()])], None)
+            return M.For("i", M.Var("two"), [text(), markup(1)])
+
+        body: list[Any] = []
+        for _ in range(rng.randint(1, 3)):
+            if rng.random() < 0.85:
+                body.append(text())
+            body.append(markup())
+        if rng.random() < 0.85:
+            body.append(text())
+        prog = M.Program(body)
+        data = {"v": "V", "two": [1, 2]}
+        lay0 = E.Layout(random.Random(1))
+        n = E.emit(prog, lay0).n_positions
+        for _ in range(6):
+            A = [rng.choice(E.MARKERS) if rng.random() < 0.5 else "" for _ in range(n)]
+            trim = rng.choice("+-~")
+            sup = rng.random() < 0.5
+            em = E.emit(prog, E.Layout(random.Random(1), markers=list(A)))
+            exp = c01.ref_render(prog, (trim, sup, False), data)
+            got = c01.real_render((trim, sup, False), em.source, em.partials, data)
+            ctx.ev()
+            ctx.count("lookalike_renders")
+            ctx.nt("lookalike", em.source, trim, sup)
+            if exp[0] == "ok" and got != exp:
+                kind = "opening" if looks is opening else "closing"
+                ctx.violation(
+                    f"ws-control:text-with-{kind}-lookalike:trim={trim}",
+                    f"expected {exp[1]!r} got {got!r}",
+                    {"source": em.source, "partials": {}, "data": data, "cfg": [trim, sup, False],
+                     "base": [exp[0], exp[1]], "exact": True, "markers": A})
+                break
+    if em is not None:
+        ctx.sample({"kind": "lookalike-family", "source": em.source, "output": got})
+
+
 def shards(tier: str, seed: int) -> list[dict[str, Any]]:
     n = 16
     per = 60 if tier == "quick" else 350
     return [{"kind": "gen", "i": i, "n": n, "per": per} for i in range(n)] + [
-        {"kind": "suppress", "i": i, "n": 2} for i in range(2)]
+        {"kind": "suppress", "i": i, "n": 2} for i in range(2)] + [
+        {"kind": "lookalike", "i": i, "n": 2, "per": 400 if tier == "quick" else 8000} for i in range(2)]
 
 
 def floors(tier: str) -> dict[str, int]:
     k = 1 if tier == "quick" else 20
     return {"marker_assignments": 20000 * k, "programs_exhaustive": 100 * k, "suppression_pairs": 300 * k,
-            "verbatim_checks": 100 * k, "suppression_family_renders": 5000, "exact_trim_checks": 5000 * k}
+            "verbatim_checks": 100 * k, "suppression_family_renders": 5000, "exact_trim_checks": 5000 * k,
+            "lookalike_renders": 3000 * k}
 
 
 def run_shard(spec: dict[str, Any], ctx: Ctx) -> None:
     if spec["kind"] == "suppress":
         suppression_family(ctx, spec)
+        return
+    if spec["kind"] == "lookalike":
+        lookalike_family(ctx, spec)
         return
     for j in range(spec["per"]):
         run_program(ctx, f"{spec['seed']}:{spec['i']}", j, spec["tier"])
